@@ -3,15 +3,17 @@
 
   Full (for all inputs): nano_roundtrip, atoi_itoa, sep_convert, encoder_stream (with
   Tiles), part_never_exceeds, decoder_splits, C13_roundtrip, C13_roundtrip_mem, truncated_request,
-  truncated_header_refused, refuse_malformed, unsafe_name_refused, no_part_beyond_length,
-  index_overflow_refused,
-  extra_trailing_ignored, metalen_nonpositive_refused, metalen_short_refused.
+  truncated_header_refused, header_cut_refused, refuse_malformed, refuse_malformed_wire,
+  unsafe_name_refused, unsafe_name_no_effect, no_part_beyond_length, index_overflow_refused,
+  extra_trailing_ignored, metalen_nonpositive_refused, metalen_nonpositive_no_bytes,
+  metalen_short_refused, metalen_oversized_refused, metalen_mismatch_refused.
   Theorems about routeData that end in Prepare/Receive carry the hypothesis `SafeNames` (the
   data route's confinement check, http/server.go findUnsafePartName).
-  Partial: refuse_malformed_partial (hypothesis `MetaLenExact`: X-STS-MetaLen equals the real
-  header length) — the negation of the full statement has the witnesses
-  metalen_oversized_shifts (S11) ; receive_old_records_short (F5, repaired) and
-  decoder_old_hangs (repaired) show what the two `fix:` commits changed.
+  No partial theorem is left: the hypothesis `MetaLenExact` of the former
+  refuse_malformed_partial is gone since `fix: NewDecoder accepted a metadata length larger
+  than the metadata` (S11). What the three `fix:` commits changed is shown by witnesses about
+  the code as found: metalen_oversized_shifts (S11, about routeDataOrig / newDecoderOrig),
+  receive_old_records_short (F5) and decoder_old_hangs.
 -/
 import StsModel.Model.Wire
 
@@ -753,13 +755,40 @@ theorem headerWindow_exact (hdr rest : List UInt8) (br : Bool) (h : 0 < hdr.leng
 def SafeNames (sep : Option Char) (ds : List Desc) : Prop :=
   (ds.map (Desc.conv sep)).all Desc.safe = true
 
-/-- the round-trip hypothesis on the trusted header codec: the stream decoder returns the
-    encoded list, whatever follows it. -/
-def Codec.RoundTrip (c : Codec) : Prop := ∀ ds rest, c.dec (c.enc ds ++ rest) = some ds
+/-- the round-trip hypothesis on the trusted header codec at one descriptor list: the stream
+    decoder returns the encoded list, whatever follows it, and its input offset is then the end of the encoded
+    list (`json.Decoder.InputOffset`: a JSON array ends at its closing bracket). -/
+def Codec.RoundTripAt (c : Codec) (ds : List Desc) : Prop :=
+  ∀ rest, c.dec (c.enc ds ++ rest) = some ds ∧ c.used (c.enc ds ++ rest) = (c.enc ds).length
+
+/-- the same for every descriptor list (what `encoding/json` provides). The theorems below
+    need it only at the payload they speak about. -/
+def Codec.RoundTrip (c : Codec) : Prop := ∀ ds, c.RoundTripAt ds
+
+/-- every strict prefix of the encoded header fails to decode (true of a JSON array, whose
+    last byte is its closing bracket). -/
+def Codec.PrefixFreeAt (c : Codec) (ds : List Desc) : Prop :=
+  ∀ k, k < (c.enc ds).length → c.dec ((c.enc ds).take k) = none
+
+def Codec.PrefixFree (c : Codec) : Prop := ∀ ds, c.PrefixFreeAt ds
 
 /-- a header is never empty and its length fits an `int` (JSON: at least `[]`). -/
 def Codec.HdrLenOk (c : Codec) (ds : List Desc) : Prop :=
   0 < (c.enc ds).length ∧ (c.enc ds).length < 9223372036854775808
+
+/-- NewDecoder with the exact length: the descriptors, and the stream right after the header. -/
+theorem newDecoder_exact (c : Codec) (ds : List Desc) (hrt : c.RoundTripAt ds) (sep : Option Char)
+    (rest : List UInt8) (br : Bool) (h0 : 0 < (c.enc ds).length) :
+    newDecoder c ((c.enc ds).length : Int) sep ⟨c.enc ds ++ rest, br⟩ =
+      .ok (ds.map (Desc.conv sep)) ⟨rest, br⟩ := by
+  have hdec : c.dec (c.enc ds) = some ds := by simpa using (hrt []).1
+  have hused : c.used (c.enc ds) = (c.enc ds).length := by simpa using (hrt []).2
+  simp [newDecoder, headerWindow_exact _ _ br h0, hdec, hused]
+
+theorem routeData_cur (c : Codec) (rk : RecvKind) (hasBody : Bool) (ml : List Char)
+    (sep : Option Char) (x : Nat) (s : Stream) :
+    routeData c rk false hasBody ml sep x s = routeDataWith (newDecoder c) rk hasBody ml sep x s := by
+  simp [routeData]
 
 /-- `C13_roundtrip`: decode (encode p) = p over a request. For every payload whose parts are
     readable ranges, every sequence of positive read-buffer sizes on the sender (long
@@ -769,8 +798,8 @@ def Codec.HdrLenOk (c : Codec) (ds : List Desc) : Prop :=
     field by field as encoded), and `Receive` number i is handed descriptor i and exactly
     the bytes `file_i[beg_i, end_i)`. Hypothesis `SafeNames`: the names pass the data route's
     confinement check (otherwise the request is refused, `unsafe_name_refused`). -/
-theorem C13_roundtrip (c : Codec) (hrt : c.RoundTrip) (rk : RecvKind) (fill : UInt8)
-    (ds : List Desc) (files : List (Option (List UInt8))) (sizes : List Nat) (sep : Option Char)
+theorem C13_roundtrip (c : Codec) (ds : List Desc) (hrt : c.RoundTripAt ds) (rk : RecvKind) (fill : UInt8)
+    (files : List (Option (List UInt8))) (sizes : List Nat) (sep : Option Char)
     (br : Bool) (hne : ds ≠ []) (hok : PartsOk ds files) (hk : ∀ k ∈ sizes, 0 < k)
     (hlen : (slices ds files).flatten.length ≤ sizes.length) (hh : c.HdrLenOk ds)
     (hs : SafeNames sep ds) :
@@ -779,10 +808,9 @@ theorem C13_roundtrip (c : Codec) (hrt : c.RoundTrip) (rk : RecvKind) (fill : UI
   obtain ⟨_, _, _, h4, h5⟩ := encoder_stream fill ds files sizes hne hok hk
   have hbody : transmitBody c fill ds files sizes = c.enc ds ++ (slices ds files).flatten := by
     simp only [transmitBody]; rw [h4 (h5 hlen)]
-  have hdec : c.dec (c.enc ds) = some ds := by simpa using hrt ds []
   unfold SafeNames at hs
-  simp only [routeData, metaLenHeader, atoi_itoa _ hh.2, hbody, Bool.not_true, Bool.false_eq_true,
-    if_false, newDecoder, headerWindow_exact _ _ br hh.1, hdec, hs]
+  simp only [routeData_cur, routeDataWith, metaLenHeader, atoi_itoa _ hh.2, hbody, Bool.not_true,
+    Bool.false_eq_true, if_false, newDecoder_exact c ds hrt sep _ br hh.1, hs]
   have := routeLoop_exact rk _ _ (fits_slices sep ds files hok) 0 [] br
   simp only [List.append_nil] at this
   rw [this]
@@ -790,8 +818,8 @@ theorem C13_roundtrip (c : Codec) (hrt : c.RoundTrip) (rk : RecvKind) (fill : UI
 /-- `C13_roundtrip` in memory (no HTTP, no `Receive`): NewDecoder on `meta ‖ encoder output`
     with `n = len(meta)` yields the descriptors in order, and for EVERY choice of positive
     read sizes per part the part readers return exactly the slices, each ending in EOF. -/
-theorem C13_roundtrip_mem (c : Codec) (hrt : c.RoundTrip) (fill : UInt8)
-    (ds : List Desc) (files : List (Option (List UInt8))) (sizes : List Nat) (sep : Option Char)
+theorem C13_roundtrip_mem (c : Codec) (ds : List Desc) (hrt : c.RoundTripAt ds) (fill : UInt8)
+    (files : List (Option (List UInt8))) (sizes : List Nat) (sep : Option Char)
     (br : Bool) (hne : ds ≠ []) (hok : PartsOk ds files) (hk : ∀ k ∈ sizes, 0 < k)
     (hlen : (slices ds files).flatten.length ≤ sizes.length) (hh : c.HdrLenOk ds) :
     newDecoder c (c.enc ds).length sep ⟨transmitBody c fill ds files sizes, br⟩ =
@@ -802,9 +830,8 @@ theorem C13_roundtrip_mem (c : Codec) (hrt : c.RoundTrip) (fill : UInt8)
   obtain ⟨_, _, _, h4, h5⟩ := encoder_stream fill ds files sizes hne hok hk
   have hbody : transmitBody c fill ds files sizes = c.enc ds ++ (slices ds files).flatten := by
     simp only [transmitBody]; rw [h4 (h5 hlen)]
-  have hdec : c.dec (c.enc ds) = some ds := by simpa using hrt ds []
   constructor
-  · simp only [newDecoder, hbody, headerWindow_exact _ _ br hh.1, hdec]
+  · rw [hbody]; exact newDecoder_exact c ds hrt sep _ br hh.1
   · intro szs hs
     have := decoder_splits _ _ (fits_slices sep ds files hok) szs hs [] br
     simpa using this
@@ -854,13 +881,10 @@ theorem routeLoop_no_part_beyond (rk : RecvKind) (ds : List Desc) (x i : Nat) (s
     | err => intro p hp; simp at hp; subst hp; exact hl
     | panic => intro p hp; simp at hp; subst hp; exact hl
 
-/-- `no_part_beyond_length`: whatever the request (any meta-len header, any body, any way
-    the stream ends, any codec, old or repaired code, any `Receive`): no `Receive` call
-    gets more bytes than its descriptor announces. -/
-theorem no_part_beyond_length (c : Codec) (rk : RecvKind) (old hasBody : Bool) (ml : List Char)
-    (sep : Option Char) (x : Nat) (s : Stream) :
-    ∀ p ∈ (routeData c rk old hasBody ml sep x s).received, p.2.length ≤ p.1.len.toNat := by
-  unfold routeData
+theorem routeDataWith_no_part_beyond (nd : Int → Option Char → Stream → DecRes) (rk : RecvKind)
+    (hasBody : Bool) (ml : List Char) (sep : Option Char) (x : Nat) (s : Stream) :
+    ∀ p ∈ (routeDataWith nd rk hasBody ml sep x s).received, p.2.length ≤ p.1.len.toNat := by
+  unfold routeDataWith
   split
   · simp
   · split
@@ -871,6 +895,15 @@ theorem no_part_beyond_length (c : Codec) (rk : RecvKind) (old hasBody : Bool) (
       · split
         · simp
         · exact routeLoop_no_part_beyond rk _ x 0 _
+
+/-- `no_part_beyond_length`: whatever the request (any meta-len header, any body, any way
+    the stream ends, any codec, old, as-found or repaired decoder, any `Receive`): no
+    `Receive` call gets more bytes than its descriptor announces. -/
+theorem no_part_beyond_length (c : Codec) (rk : RecvKind) (old hasBody : Bool) (ml : List Char)
+    (sep : Option Char) (x : Nat) (s : Stream) :
+    (∀ p ∈ (routeData c rk old hasBody ml sep x s).received, p.2.length ≤ p.1.len.toNat) ∧
+    (∀ p ∈ (routeDataOrig c rk hasBody ml sep x s).received, p.2.length ≤ p.1.len.toNat) :=
+  ⟨routeDataWith_no_part_beyond _ rk hasBody ml sep x s, routeDataWith_no_part_beyond _ rk hasBody ml sep x s⟩
 
 /-- `index_overflow_refused`: a decoder that hands out more readers than the header has
     parts never gets a 200; when every announced part arrived complete the answer is 400
@@ -963,7 +996,7 @@ theorem truncSpec_prefix (ds : List Desc) (bs : List (List UInt8)) (m i : Nat) :
     `k` is exactly the number of parts that fit into `m` bytes, `Receive` calls 0…k-1 got
     exactly their slices, call `k` got a proper prefix of its slice and failed, no later
     part was touched, and no call ever got a byte of another part. -/
-theorem truncated_request (c : Codec) (hrt : c.RoundTrip) (ds : List Desc)
+theorem truncated_request (c : Codec) (ds : List Desc) (hrt : c.RoundTripAt ds)
     (files : List (Option (List UInt8))) (sep : Option Char) (br : Bool) (m : Nat)
     (hok : PartsOk ds files) (hh : c.HdrLenOk ds) (hm : m < (slices ds files).flatten.length)
     (hs : SafeNames sep ds) :
@@ -974,40 +1007,86 @@ theorem truncated_request (c : Codec) (hrt : c.RoundTrip) (ds : List Desc)
       r.received.length = k + 1 ∧
       ((slices ds files).take k).flatten.length ≤ m ∧ m < ((slices ds files).take (k + 1)).flatten.length ∧
       ∀ x ∈ r.received, ∃ b, (x.1, b) ∈ (ds.map (Desc.conv sep)).zip (slices ds files) ∧ x.2 <+: b := by
-  have hdec : c.dec (c.enc ds) = some ds := by simpa using hrt ds []
   have hfit := fits_slices sep ds files hok
   unfold SafeNames at hs
-  simp only [routeData, metaLenHeader, atoi_itoa _ hh.2, Bool.not_true, Bool.false_eq_true,
-    if_false, newDecoder, headerWindow_exact _ _ br hh.1, hdec, routeLoop_trunc _ _ hfit, hs]
+  simp only [routeData_cur, routeDataWith, metaLenHeader, atoi_itoa _ hh.2, Bool.not_true,
+    Bool.false_eq_true, if_false, newDecoder_exact c ds hrt sep _ br hh.1, routeLoop_trunc _ _ hfit, hs]
   obtain ⟨k, h1, h2, h3, h4, h5, h6⟩ := truncSpec_short _ _ hfit m 0 hm
   refine ⟨k, by simpa using h1, by simpa using h2, trivial, h3, h4, h5, h6, truncSpec_prefix _ _ m 0⟩
 
-/-- every strict prefix of an encoded header fails to decode (true of a JSON array, whose
-    last byte is its closing bracket). -/
-def Codec.PrefixFree (c : Codec) : Prop :=
-  ∀ ds k, k < (c.enc ds).length → c.dec ((c.enc ds).take k) = none
+/-- the header window of a stream that ends inside the header is a strict prefix of the
+    header, whatever length was announced. -/
+theorem headerWindow_cut (hdr : List UInt8) (j : Nat) (hj : j < hdr.length) (n : Int) (br : Bool) :
+    ∃ k, k < hdr.length ∧ (headerWindow n ⟨hdr.take j, br⟩).1 = hdr.take k := by
+  unfold headerWindow
+  split
+  · exact ⟨min n.toNat j, by omega, by simp [List.take_take]⟩
+  · exact ⟨j, hj, rfl⟩
+
+/-- `header_cut_refused`: a request that ends inside the header is answered 500 whatever
+    X-STS-MetaLen announces (any integer); nothing is prepared or received. -/
+theorem header_cut_refused (c : Codec) (ds : List Desc) (hpf : c.PrefixFreeAt ds) (rk : RecvKind)
+    (sep : Option Char) (br : Bool) (ml : List Char) (n : Int) (x j : Nat)
+    (hml : parseInt64? ml = some n) (hj : j < (c.enc ds).length) :
+    routeData c rk false true ml sep x ⟨(c.enc ds).take j, br⟩ = ⟨.err500, none, []⟩ := by
+  obtain ⟨k, hk, hw⟩ := headerWindow_cut (c.enc ds) j hj n br
+  have hd : c.dec (headerWindow n ⟨(c.enc ds).take j, br⟩).1 = none := by rw [hw]; exact hpf k hk
+  simp only [routeData_cur, routeDataWith, hml, Bool.not_true, Bool.false_eq_true, if_false, newDecoder]
+  rw [show headerWindow n ⟨(c.enc ds).take j, br⟩ =
+    ((headerWindow n ⟨(c.enc ds).take j, br⟩).1, (headerWindow n ⟨(c.enc ds).take j, br⟩).2) from rfl]
+  simp only [hd]
 
 /-- `truncated_header_refused` (after `fix: NewDecoder closes the header pipe`): a request
     that ends inside the header is answered 500; nothing is prepared or received. -/
-theorem truncated_header_refused (c : Codec) (hpf : c.PrefixFree) (rk : RecvKind) (ds : List Desc)
+theorem truncated_header_refused (c : Codec) (ds : List Desc) (hpf : c.PrefixFreeAt ds) (rk : RecvKind)
     (sep : Option Char) (br : Bool) (k : Nat) (hk : k < (c.enc ds).length) (hh : c.HdrLenOk ds) :
-    routeData c rk false true (metaLenHeader c ds) sep 0 ⟨(c.enc ds).take k, br⟩ = ⟨.err500, none, []⟩ := by
-  have hpos : ((c.enc ds).length : Int) > 0 := by have := hh.1; omega
-  have hw : List.take (c.enc ds).length (List.take k (c.enc ds)) = (c.enc ds).take k := by
-    rw [List.take_take, Nat.min_eq_right (by omega)]
-  simp only [routeData, metaLenHeader, atoi_itoa _ hh.2, Bool.not_true, Bool.false_eq_true,
-    if_false, newDecoder, headerWindow, hpos, if_true, Int.toNat_natCast, hw, hpf ds k hk]
+    routeData c rk false true (metaLenHeader c ds) sep 0 ⟨(c.enc ds).take k, br⟩ = ⟨.err500, none, []⟩ :=
+  header_cut_refused c ds hpf rk sep br _ _ 0 k (atoi_itoa _ hh.2) hk
 
 /-- `metalen_short_refused`: a positive X-STS-MetaLen smaller than the header is refused
     with 500 (after the pipe repair; before it the request hung). -/
-theorem metalen_short_refused (c : Codec) (hpf : c.PrefixFree) (rk : RecvKind) (ds : List Desc)
-    (sep : Option Char) (rest : List UInt8) (br : Bool) (ml : List Char) (n : Int)
+theorem metalen_short_refused (c : Codec) (ds : List Desc) (hpf : c.PrefixFreeAt ds) (rk : RecvKind)
+    (sep : Option Char) (rest : List UInt8) (br : Bool) (ml : List Char) (n : Int) (x : Nat)
     (hml : parseInt64? ml = some n) (h0 : 0 < n) (h1 : n.toNat < (c.enc ds).length) :
-    routeData c rk false true ml sep 0 ⟨c.enc ds ++ rest, br⟩ = ⟨.err500, none, []⟩ := by
+    routeData c rk false true ml sep x ⟨c.enc ds ++ rest, br⟩ = ⟨.err500, none, []⟩ := by
   have hw : List.take n.toNat (c.enc ds ++ rest) = (c.enc ds).take n.toNat := by
     rw [List.take_append_of_le_length (by omega)]
-  simp only [routeData, hml, Bool.not_true, Bool.false_eq_true, if_false, newDecoder, headerWindow,
-    gt_iff_lt, h0, if_true, hw, hpf ds n.toNat h1]
+  simp only [routeData_cur, routeDataWith, hml, Bool.not_true, Bool.false_eq_true, if_false, newDecoder,
+    headerWindow, gt_iff_lt, h0, if_true, hw, hpf n.toNat h1]
+
+/-- NewDecoder refuses an announced length beyond the end of the header, whatever follows
+    the header on the stream (more bytes than announced, fewer, none). -/
+theorem newDecoder_oversized (c : Codec) (ds : List Desc) (hrt : c.RoundTripAt ds) (sep : Option Char)
+    (rest : List UInt8) (br : Bool) (n : Int) (h : ((c.enc ds).length : Int) < n) :
+    newDecoder c n sep ⟨c.enc ds ++ rest, br⟩ = .fail := by
+  have h0 : n > 0 := by omega
+  have hw : List.take n.toNat (c.enc ds ++ rest) = c.enc ds ++ rest.take (n.toNat - (c.enc ds).length) := by
+    rw [List.take_append, List.take_of_length_le (by omega)]
+  have hne : ((c.enc ds).length : Int) ≠ n := by omega
+  simp only [newDecoder, headerWindow, h0, if_true, hw, (hrt _).1, (hrt _).2]
+  simp [hne]
+
+/-- `metalen_oversized_refused` (after `fix: NewDecoder accepted a metadata length larger than
+    the metadata`, S11): ANY X-STS-MetaLen larger than the header — by one byte or by 2^62,
+    with any bytes after the header, a stream longer or shorter than announced, ending
+    cleanly or not, any `Receive`, any number of extra readers — is answered 500: `Prepare`
+    is not called and no `Receive` gets a byte. -/
+theorem metalen_oversized_refused (c : Codec) (ds : List Desc) (hrt : c.RoundTripAt ds) (rk : RecvKind)
+    (sep : Option Char) (rest : List UInt8) (br : Bool) (ml : List Char) (n : Int) (x : Nat)
+    (hml : parseInt64? ml = some n) (h : ((c.enc ds).length : Int) < n) :
+    routeData c rk false true ml sep x ⟨c.enc ds ++ rest, br⟩ = ⟨.err500, none, []⟩ := by
+  simp only [routeData_cur, routeDataWith, hml, Bool.not_true, Bool.false_eq_true, if_false,
+    newDecoder_oversized c ds hrt sep rest br n h]
+
+/-- `metalen_mismatch_refused`: every positive X-STS-MetaLen other than the length of the
+    header is refused with 500 and without effect. -/
+theorem metalen_mismatch_refused (c : Codec) (ds : List Desc) (hrt : c.RoundTripAt ds)
+    (hpf : c.PrefixFreeAt ds) (rk : RecvKind) (sep : Option Char) (rest : List UInt8) (br : Bool) (ml : List Char) (n : Int)
+    (x : Nat) (hml : parseInt64? ml = some n) (h0 : 0 < n) (hne : n ≠ ((c.enc ds).length : Int)) :
+    routeData c rk false true ml sep x ⟨c.enc ds ++ rest, br⟩ = ⟨.err500, none, []⟩ := by
+  by_cases h : ((c.enc ds).length : Int) < n
+  · exact metalen_oversized_refused c ds hrt rk sep rest br ml n x hml h
+  · exact metalen_short_refused c ds hpf rk sep rest br ml n x hml h0 (by omega)
 
 /-- `metalen_nonpositive_refused`: X-STS-MetaLen ≤ 0 makes the decoder take the whole body
     as header; every part reader then meets an exhausted stream. With the repaired `Receive`
@@ -1025,17 +1104,77 @@ theorem metalen_nonpositive_refused (c : Codec) (sep : Option Char) (s : Stream)
   have h2 : ¬ ((Desc.conv sep d).len < 0) := by rw [hl]; omega
   have h3 : ¬ ((Desc.conv sep d).len.toNat ≤ 0) := by rw [hl]; omega
   unfold SafeNames at hs
-  simp only [routeData, hml, Bool.not_true, Bool.false_eq_true, if_false, newDecoder, headerWindow,
-    hn, hdec, hs]
+  simp only [routeData_cur, routeDataWith, hml, Bool.not_true, Bool.false_eq_true, if_false, newDecoder,
+    headerWindow, hn, hdec, hs, false_and]
   simp only [List.map_cons, routeLoop, receive, h1, copyPart, h2, List.length_nil, h3, if_false]
   have h4 : ¬ ((0 : Int) = (Desc.conv sep d).len) := by rw [hl]; omega
   cases s.broken <;> simp [h4]
+
+theorem copyPart_empty (n : Int) (br : Bool) :
+    (copyPart n ⟨[], br⟩).1 = [] ∧ (copyPart n ⟨[], br⟩).2.2 = ⟨[], br⟩ := by
+  unfold copyPart
+  split
+  · simp
+  · split <;> simp
+
+theorem receive_empty (rk : RecvKind) (d : Desc) (br : Bool) :
+    (receive rk d ⟨[], br⟩).1 = [] ∧ (receive rk d ⟨[], br⟩).2.2 = ⟨[], br⟩ := by
+  obtain ⟨h1, h2⟩ := copyPart_empty d.len br
+  unfold receive
+  split
+  · simp
+  · rcases hc : copyPart d.len ⟨[], br⟩ with ⟨bytes, res, s'⟩
+    rw [hc] at h1 h2
+    simp only at h1 h2
+    subst h1 h2
+    cases res
+    all_goals simp only
+    all_goals (try split)
+    all_goals simp
+
+theorem routeLoop_empty (rk : RecvKind) (ds : List Desc) (x i : Nat) (br : Bool) :
+    ∀ p ∈ (routeLoop rk ds x i ⟨[], br⟩).1, p.2 = [] := by
+  induction ds generalizing i with
+  | nil => cases x <;> simp [routeLoop]
+  | cons d ds ih =>
+    obtain ⟨h1, h2⟩ := receive_empty rk d br
+    unfold routeLoop
+    rcases hr : receive rk d ⟨[], br⟩ with ⟨bytes, res, s'⟩
+    rw [hr] at h1 h2
+    simp only at h1 h2
+    subst h1 h2
+    cases res with
+    | ok =>
+      intro p hp
+      simp only [List.mem_cons] at hp
+      rcases hp with hp | hp
+      · subst hp; rfl
+      · exact ih _ p hp
+    | err => intro p hp; simp at hp; subst hp; rfl
+    | panic => intro p hp; simp at hp; subst hp; rfl
+
+/-- `metalen_nonpositive_no_bytes`: with X-STS-MetaLen ≤ 0 ("the meta is the entire payload")
+    no `Receive` call of the request ever gets a byte — whatever the body, the codec, the
+    `Receive` — so no part can get bytes of another part. -/
+theorem metalen_nonpositive_no_bytes (c : Codec) (rk : RecvKind) (sep : Option Char) (s : Stream)
+    (ml : List Char) (n : Int) (x : Nat) (hml : parseInt64? ml = some n) (h0 : n ≤ 0) :
+    ∀ p ∈ (routeData c rk false true ml sep x s).received, p.2 = [] := by
+  have hn : ¬ (n > 0) := by omega
+  simp only [routeData_cur, routeDataWith, hml, Bool.not_true, Bool.false_eq_true, if_false, newDecoder,
+    headerWindow, hn, false_and]
+  cases hd : c.dec s.data with
+  | none => simp
+  | some ds =>
+    simp only
+    split
+    · simp
+    · exact routeLoop_empty rk _ x 0 s.broken
 
 /-- the same request before the `Receive` repair (S11 as first suspected): every part is
     "received" with no bytes at all and the answer is 200. -/
 theorem metalen_nonpositive_accepted_old :
     let d : Desc := ⟨"a", "", "", "h", 0, 0, 4, 0, 4⟩
-    let c : Codec := ⟨fun _ => [91, 93], fun _ => some [d], fun _ => false⟩
+    let c : Codec := ⟨fun _ => [91, 93], fun _ => some [d], fun _ => false, fun _ => 2⟩
     let r := routeData c .stageOld false true ['0'] none 0 ⟨[91, 93, 1, 2, 3, 4], false⟩
     r.status = .ok200 ∧ r.received.map (·.2) = [[]] := by decide
 
@@ -1080,73 +1219,202 @@ theorem receive_ok_complete (d : Desc) (s : Stream) :
         · simp
         · rename_i h; intro _; simp only [true_and, ne_eq, Decidable.not_not] at h; simpa using h
 
-/-- S11, not repaired (known finding): X-STS-MetaLen larger than the header is accepted —
-    the JSON stream decoder ignores the bytes after the value — and every part is shifted.
-    Header `[0xAA,0xBB]`, parts a = [1,2], b = [3,4], meta-len 3: `Receive` for a is handed
-    [2,3] (a byte of its neighbour) and succeeds; the request is answered 206 with count 1,
-    i.e. part a is reported as received. With enough trailing bytes the answer is 200. -/
+/-- S11, the code as found (`newDecoderOrig` / `routeDataOrig`; repaired by `fix: NewDecoder
+    accepted a metadata length larger than the metadata`): X-STS-MetaLen larger than the header
+    was accepted — the JSON stream decoder ignores the bytes after the value — and every part
+    was shifted. Header `[0xAA,0xBB]`, parts a = [1,2], b = [3,4], meta-len 3: `Receive` for a
+    was handed [2,3] (a byte of its neighbour) and succeeded; the request was answered 206
+    with count 1, i.e. part a was reported as received. With enough trailing bytes the answer
+    was 200. The repaired code answers both requests 500 without calling `Prepare`. -/
 theorem metalen_oversized_shifts :
     let a : Desc := ⟨"a", "", "", "h", 0, 0, 2, 0, 2⟩
     let b : Desc := ⟨"b", "", "", "h", 0, 0, 2, 0, 2⟩
     let c : Codec := ⟨fun _ => [0xAA, 0xBB],
-      fun bs => match bs with | 0xAA :: 0xBB :: _ => some [a, b] | _ => none, fun _ => false⟩
-    let r := routeData c .stage false true ['3'] none 0 ⟨[0xAA, 0xBB, 1, 2, 3, 4], false⟩
-    let r' := routeData c .stage false true ['3'] none 0 ⟨[0xAA, 0xBB, 1, 2, 3, 4, 9], false⟩
+      fun bs => match bs with | 0xAA :: 0xBB :: _ => some [a, b] | _ => none, fun _ => false, fun _ => 2⟩
+    let r := routeDataOrig c .stage true ['3'] none 0 ⟨[0xAA, 0xBB, 1, 2, 3, 4], false⟩
+    let r' := routeDataOrig c .stage true ['3'] none 0 ⟨[0xAA, 0xBB, 1, 2, 3, 4, 9], false⟩
     r.status = .partial206 1 ∧ r.received.map (·.2) = [[2, 3], [4]] ∧
-    r'.status = .ok200 ∧ r'.received.map (·.2) = [[2, 3], [4, 9]] := by decide
+    r'.status = .ok200 ∧ r'.received.map (·.2) = [[2, 3], [4, 9]] ∧
+    routeData c .stage false true ['3'] none 0 ⟨[0xAA, 0xBB, 1, 2, 3, 4], false⟩ = ⟨.err500, none, []⟩ ∧
+    routeData c .stage false true ['3'] none 0 ⟨[0xAA, 0xBB, 1, 2, 3, 4, 9], false⟩ = ⟨.err500, none, []⟩ ∧
+    (routeData c .stage false true ['2'] none 0 ⟨[0xAA, 0xBB, 1, 2, 3, 4], false⟩).status = .ok200 := by
+  decide
 
-/-- hypothesis of the partial refusal theorem: the meta-len header is the decimal length of
-    the real header (what `Transmit` sends). -/
-def MetaLenExact (c : Codec) (ds : List Desc) (ml : List Char) : Prop := ml = metaLenHeader c ds
+/-- the repaired and the as-found decoder differ in nothing but the refusal: when the repaired
+    NewDecoder succeeds, the code as found gave the same descriptors and the same stream. -/
+theorem newDecoder_ok_same (c : Codec) (n : Int) (sep : Option Char) (s : Stream) (ds : List Desc)
+    (rest : Stream) (h : newDecoder c n sep s = .ok ds rest) : newDecoderOrig c n sep s = .ok ds rest := by
+  unfold newDecoder at h
+  unfold newDecoderOrig
+  generalize headerWindow n s = w at h ⊢
+  obtain ⟨hdr, rst⟩ := w
+  simp only at h ⊢
+  cases hd : c.dec hdr with
+  | none => rw [hd] at h; cases h
+  | some l =>
+    rw [hd] at h
+    simp only at h ⊢
+    split at h
+    · cases h
+    · exact h
 
 /-- `unsafe_name_refused` (after `fix: refuse file names … that leave the receiver's
     directories`): when the decoded header contains a part whose converted name, raw rename
     target or converted predecessor is not a safe relative path (empty name, absolute, a
-    `..` segment, nothing but `.`), the request is answered 400 — whatever the body, meta-len
-    permitting the header to decode — and neither `Prepare` nor `Receive` is called. -/
+    `..` segment, nothing but `.`), the request is answered 400 — whatever the body, the
+    meta-len being one NewDecoder accepts (`hoff`: not positive, or the end of the JSON value) —
+    and neither `Prepare` nor `Receive` is called. -/
 theorem unsafe_name_refused (c : Codec) (rk : RecvKind) (ml : List Char) (n : Int) (sep : Option Char)
     (x : Nat) (s : Stream) (ds : List Desc) (hml : parseInt64? ml = some n)
-    (hdec : c.dec (headerWindow n s).1 = some ds) (hu : ¬ SafeNames sep ds) :
+    (hdec : c.dec (headerWindow n s).1 = some ds)
+    (hoff : 0 < n → (c.used (headerWindow n s).1 : Int) = n) (hu : ¬ SafeNames sep ds) :
     routeData c rk false true ml sep x s = ⟨.bad400, none, []⟩ := by
   unfold SafeNames at hu
   have hu' : (ds.map (Desc.conv sep)).all Desc.safe = false := by
     cases h : (ds.map (Desc.conv sep)).all Desc.safe
     · rfl
     · exact absurd h hu
-  simp [routeData, hml, newDecoder, hdec, hu']
+  have hc : ¬ (n > 0 ∧ (c.used (headerWindow n s).1 : Int) ≠ n) := fun h => h.2 (hoff h.1)
+  simp only [routeData_cur, routeDataWith, hml, Bool.not_true, Bool.false_eq_true, if_false, newDecoder]
+  rw [show headerWindow n s = ((headerWindow n s).1, (headerWindow n s).2) from rfl]
+  simp only [hdec, hc, if_false, hu', Bool.not_false, if_true]
+
+/-- `unsafe_name_no_effect`: with ANY meta-len header (numeric or not, exact or not) a request
+    whose decoded header contains an unsafe name never reaches `Prepare` or `Receive`. -/
+theorem unsafe_name_no_effect (c : Codec) (rk : RecvKind) (hasBody : Bool) (ml : List Char)
+    (sep : Option Char) (x : Nat) (s : Stream)
+    (hu : ∀ n ds, parseInt64? ml = some n → c.dec (headerWindow n s).1 = some ds → ¬ SafeNames sep ds) :
+    (routeData c rk false hasBody ml sep x s).prepared = none ∧
+    (routeData c rk false hasBody ml sep x s).received = [] := by
+  simp only [routeData_cur, routeDataWith, newDecoder]
+  split
+  · simp
+  · split
+    · simp
+    · rename_i n hml
+      rw [show headerWindow n s = ((headerWindow n s).1, (headerWindow n s).2) from rfl]
+      simp only
+      cases hd : c.dec (headerWindow n s).1 with
+      | none => simp
+      | some ds =>
+        have hu' : (ds.map (Desc.conv sep)).all Desc.safe = false := by
+          have := hu n ds hml hd
+          unfold SafeNames at this
+          cases h : (ds.map (Desc.conv sep)).all Desc.safe
+          · rfl
+          · exact absurd h this
+        by_cases hc : (n > 0 ∧ (c.used (headerWindow n s).1 : Int) ≠ n)
+        · simp [hc]
+        · simp [hc, hu']
 
 /-- `refuse_malformed`, the part that holds without hypothesis on the sender: no body, a
-    meta-len header that is not a decimal `int`, or a header window that does not decode
-    ⇒ 400 / 400 / 500, and nothing is prepared or received. -/
+    meta-len header that is not a decimal `int`, a header window that does not decode, or
+    a positive meta-len that is not the offset at which the decoded JSON value ends
+    ⇒ 400 / 400 / 500 / 500, and nothing is prepared or received. -/
 theorem refuse_malformed (c : Codec) (rk : RecvKind) (hasBody : Bool) (ml : List Char)
     (sep : Option Char) (x : Nat) (s : Stream) :
     (hasBody = false → routeData c rk false hasBody ml sep x s = ⟨.bad400, none, []⟩) ∧
     (hasBody = true → parseInt64? ml = none → routeData c rk false hasBody ml sep x s = ⟨.bad400, none, []⟩) ∧
     (∀ n, hasBody = true → parseInt64? ml = some n → c.dec (headerWindow n s).1 = none →
+      routeData c rk false hasBody ml sep x s = ⟨.err500, none, []⟩) ∧
+    (∀ n, hasBody = true → parseInt64? ml = some n → 0 < n → (c.used (headerWindow n s).1 : Int) ≠ n →
       routeData c rk false hasBody ml sep x s = ⟨.err500, none, []⟩) := by
-  refine ⟨fun h => by simp [routeData, h], fun h1 h2 => by simp [routeData, h1, h2], fun n h1 h2 h3 => ?_⟩
-  simp [routeData, h1, h2, newDecoder, h3]
+  refine ⟨fun h => by simp [routeData_cur, routeDataWith, h],
+    fun h1 h2 => by simp [routeData_cur, routeDataWith, h1, h2], fun n h1 h2 h3 => ?_, fun n h1 h2 h3 h4 => ?_⟩
+  · simp only [routeData_cur, routeDataWith, h1, h2, Bool.not_true, Bool.false_eq_true, if_false, newDecoder]
+    rw [show headerWindow n s = ((headerWindow n s).1, (headerWindow n s).2) from rfl]
+    simp only [h3]
+  · simp only [routeData_cur, routeDataWith, h1, h2, Bool.not_true, Bool.false_eq_true, if_false, newDecoder]
+    rw [show headerWindow n s = ((headerWindow n s).1, (headerWindow n s).2) from rfl]
+    have hc : (n > 0 ∧ (c.used (headerWindow n s).1 : Int) ≠ n) := ⟨h3, h4⟩
+    cases hd : c.dec (headerWindow n s).1 <;> simp [hc]
 
-/-- `refuse_malformed_partial`. FULL STATEMENT (does not hold, see `metalen_oversized_shifts`):
-    "every request whose body is not exactly header ‖ parts is refused and no `Receive`
-    gets a byte of another part". PROVED under the hypothesis `MetaLenExact` (meta-len =
-    real header length): for a body cut anywhere — inside the header (`k`) or inside the
-    parts (`m`) — the answer is 500, respectively 206 with fewer parts than announced, and
-    every `Receive` got a prefix of its own slice. -/
-theorem refuse_malformed_partial (c : Codec) (hrt : c.RoundTrip) (hpf : c.PrefixFree) (ds : List Desc)
-    (files : List (Option (List UInt8))) (sep : Option Char) (br : Bool) (ml : List Char)
-    (hml : MetaLenExact c ds ml) (hok : PartsOk ds files) (hh : c.HdrLenOk ds)
-    (hs : SafeNames sep ds) :
-    (∀ k, k < (c.enc ds).length →
-      routeData c .stage false true ml sep 0 ⟨(c.enc ds).take k, br⟩ = ⟨.err500, none, []⟩) ∧
-    (∀ m, m < (slices ds files).flatten.length →
-      let r := routeData c .stage false true ml sep 0 ⟨c.enc ds ++ (slices ds files).flatten.take m, br⟩
-      (∃ k, k < ds.length ∧ r.status = .partial206 k) ∧
-      ∀ x ∈ r.received, ∃ b, (x.1, b) ∈ (ds.map (Desc.conv sep)).zip (slices ds files) ∧ x.2 <+: b) := by
-  rw [hml]
-  refine ⟨fun k hk => truncated_header_refused c hpf .stage ds sep br k hk hh, fun m hm => ?_⟩
-  obtain ⟨k, h1, h2, _, _, _, _, _, h8⟩ := truncated_request c hrt ds files sep br m hok hh hm hs
-  exact ⟨⟨k, h1, h2⟩, h8⟩
+theorem take_header_body (hdr flat : List UInt8) (j : Nat) (h : hdr.length ≤ j) :
+    (hdr ++ flat).take j = hdr ++ flat.take (j - hdr.length) := by
+  rw [List.take_append, List.take_of_length_le h]
+
+/-- `refuse_malformed_wire` (full; the former `refuse_malformed_partial` needed the hypothesis
+    MetaLenExact, which `fix: NewDecoder accepted a metadata length larger than the metadata`
+    made unnecessary). What a sender puts on the wire is `header ‖ slices`; let the request
+    carry ANY integer X-STS-MetaLen `n` and let only the first `j` bytes arrive (any `j`; the
+    stream then ends cleanly or not). Unless the request is the conforming one (`n` = header
+    length and nothing missing):
+    * it is never answered 200;
+    * if `n` is positive and wrong, or the stream ends inside the header, it is answered 500
+      and neither `Prepare` nor `Receive` is called;
+    * otherwise (cut inside the parts, or `n ≤ 0`) it is answered 206 with fewer parts than
+      announced;
+    * in every case each `Receive` call got a prefix of its OWN slice: never a byte of
+      another part. -/
+theorem refuse_malformed_wire (c : Codec) (ds : List Desc) (hrt : c.RoundTripAt ds) (hpf : c.PrefixFreeAt ds)
+    (files : List (Option (List UInt8))) (sep : Option Char) (br : Bool) (ml : List Char) (n : Int)
+    (j : Nat) (hml : parseInt64? ml = some n) (hne : ds ≠ []) (hok : PartsOk ds files)
+    (hh : c.HdrLenOk ds) (hs : SafeNames sep ds)
+    (hbad : n ≠ ((c.enc ds).length : Int) ∨ j < (c.enc ds).length + (slices ds files).flatten.length) :
+    let r := routeData c .stage false true ml sep 0 ⟨(c.enc ds ++ (slices ds files).flatten).take j, br⟩
+    r.status ≠ .ok200 ∧
+    (((0 < n ∧ n ≠ ((c.enc ds).length : Int)) ∨ j < (c.enc ds).length) → r = ⟨.err500, none, []⟩) ∧
+    (¬ ((0 < n ∧ n ≠ ((c.enc ds).length : Int)) ∨ j < (c.enc ds).length) →
+      ∃ k, k < ds.length ∧ r.status = .partial206 k) ∧
+    ∀ x ∈ r.received, ∃ b, (x.1, b) ∈ (ds.map (Desc.conv sep)).zip (slices ds files) ∧ x.2 <+: b := by
+  intro r
+  by_cases hj : j < (c.enc ds).length
+  · -- the stream ends inside the header
+    have hr : r = ⟨.err500, none, []⟩ := by
+      have ht : (c.enc ds ++ (slices ds files).flatten).take j = (c.enc ds).take j := by
+        rw [List.take_append_of_le_length (by omega)]
+      show routeData c .stage false true ml sep 0 ⟨(c.enc ds ++ (slices ds files).flatten).take j, br⟩ = _
+      rw [ht]
+      exact header_cut_refused c ds hpf .stage sep br ml n 0 j hml hj
+    refine ⟨by rw [hr]; simp, fun _ => hr, fun h => absurd (Or.inr hj) h, by rw [hr]; simp⟩
+  · have ht : (c.enc ds ++ (slices ds files).flatten).take j =
+        c.enc ds ++ (slices ds files).flatten.take (j - (c.enc ds).length) :=
+      take_header_body _ _ j (by omega)
+    have hrdef : r = routeData c .stage false true ml sep 0
+        ⟨c.enc ds ++ (slices ds files).flatten.take (j - (c.enc ds).length), br⟩ := by
+      show routeData c .stage false true ml sep 0 ⟨(c.enc ds ++ (slices ds files).flatten).take j, br⟩ = _
+      rw [ht]
+    by_cases hpos : 0 < n
+    · by_cases hn : n = ((c.enc ds).length : Int)
+      · -- exact length, cut inside the parts
+        have hm : j - (c.enc ds).length < (slices ds files).flatten.length := by
+          rcases hbad with hbad | hbad
+          · exact absurd hn hbad
+          · omega
+        obtain ⟨k, h1, h2, _, _, _, _, _, h8⟩ :=
+          truncated_request c ds hrt files sep br (j - (c.enc ds).length) hok hh hm hs
+        -- the same request, whatever spelling of the number the header uses
+        have hsame : r = routeData c .stage false true (metaLenHeader c ds) sep 0
+            ⟨c.enc ds ++ (slices ds files).flatten.take (j - (c.enc ds).length), br⟩ := by
+          rw [hrdef]
+          simp only [routeData_cur, routeDataWith, hml, metaLenHeader, atoi_itoa _ hh.2, hn]
+        rw [← hsame] at h2 h8
+        refine ⟨by rw [h2]; simp, fun h => ?_, fun _ => ⟨k, h1, h2⟩, h8⟩
+        rcases h with h | h
+        · exact absurd hn h.2
+        · exact absurd h hj
+      · -- positive and wrong
+        have hr : r = ⟨.err500, none, []⟩ := by
+          rw [hrdef]; exact metalen_mismatch_refused c ds hrt hpf .stage sep _ br ml n 0 hml hpos hn
+        refine ⟨by rw [hr]; simp, fun _ => hr, fun h => absurd (Or.inl ⟨hpos, hn⟩) h, by rw [hr]; simp⟩
+    · -- n ≤ 0: the whole body is taken as header, the first part fails with nothing written
+      cases ds with
+      | nil => exact absurd rfl hne
+      | cons d ds' =>
+        obtain ⟨⟨f, hf, hb0, hb1, hb2⟩, _⟩ := hok
+        have hr := metalen_nonpositive_refused c sep
+          ⟨c.enc (d :: ds') ++ (slices (d :: ds') files).flatten.take (j - (c.enc (d :: ds')).length), br⟩
+          ml n d ds' hml (by omega) (hrt _).1 (by simp only [Desc.len]; omega) hb0 hs
+        rw [← hrdef] at hr
+        refine ⟨by rw [hr]; simp, fun h => ?_, fun _ => ⟨0, by simp, by rw [hr]⟩, ?_⟩
+        · rcases h with h | h
+          · exact absurd h.1 hpos
+          · exact absurd h hj
+        · rw [hr]
+          intro x hx
+          simp only [List.mem_singleton] at hx
+          subst hx
+          exact ⟨slice ((files.headD none).getD []) d.beg d.fin, by simp [slices], List.nil_prefix⟩
 
 
 /-! ## Non-vacuity: the hypotheses above are satisfiable by non-trivial values -/
@@ -1212,12 +1480,65 @@ example :
     let a : Desc := ⟨"a", "", "", "h", 0, 0, 2, 0, 2⟩
     let b : Desc := ⟨"b", "", "..", "h", 0, 0, 2, 0, 2⟩
     let c : Codec := ⟨fun _ => [0xAA, 0xBB],
-      fun bs => match bs with | 0xAA :: 0xBB :: _ => some [a, b] | _ => none, fun _ => false⟩
+      fun bs => match bs with | 0xAA :: 0xBB :: _ => some [a, b] | _ => none, fun _ => false, fun _ => 2⟩
     routeData c .stage false true ['2'] (some '/') 0 ⟨[0xAA, 0xBB, 1, 2, 3, 4], false⟩ = ⟨.bad400, none, []⟩ := by
   decide
 
 /-- body cut after 4 of 5 part bytes: 206, count 1, part b got a prefix of its own slice. -/
 example : (routeLoop .stage [exA, exB] 0 0 ⟨[11, 12, 13, 20], false⟩) =
     ([(exA, [11, 12, 13]), (exB, [20])], .partial206 1) := by decide
+
+/-- the toy codec of the witnesses: header `[0xAA, 0xBB]`, two parts of three and two bytes. -/
+def exCodec : Codec := ⟨fun _ => [0xAA, 0xBB],
+  fun bs => match bs with | 0xAA :: 0xBB :: _ => some [exA, exB] | _ => none, fun _ => false, fun _ => 2⟩
+
+theorem exCodec_rt : exCodec.RoundTripAt [exA, exB] := fun _ => ⟨rfl, rfl⟩
+
+theorem exCodec_pf : exCodec.PrefixFreeAt [exA, exB] := by
+  intro k hk
+  have : k = 0 ∨ k = 1 := by simp [exCodec] at hk; omega
+  rcases this with h | h <;> subst h <;> rfl
+
+theorem exSafe : SafeNames none [exA, exB] := by unfold SafeNames; decide
+
+/-- the codec the driver uses for a case (`caseCodec ds`) meets the round-trip hypothesis at
+    its own descriptor list. -/
+theorem isPrefixB_append (a b : List UInt8) : isPrefixB a (a ++ b) = true := by
+  induction a with
+  | nil => simp [isPrefixB]
+  | cons x xs ih => simp [isPrefixB, ih]
+
+theorem caseCodec_roundTripAt (ds : List Desc) : (caseCodec ds).RoundTripAt ds :=
+  fun rest => ⟨by simp [caseCodec, isPrefixB_append], rfl⟩
+
+/-- `metalen_oversized_refused` is not vacuous: meta-len 5 for the 2-byte header, any bytes
+    after the header (none, the parts, more), any `Receive`, any extra readers: 500. -/
+example (rest : List UInt8) (br : Bool) (rk : RecvKind) (x : Nat) :
+    routeData exCodec rk false true ['5'] none x ⟨[0xAA, 0xBB] ++ rest, br⟩ = ⟨.err500, none, []⟩ :=
+  metalen_oversized_refused exCodec [exA, exB] exCodec_rt rk none rest br ['5'] 5 x (by decide) (by decide)
+
+/-- and the same request with the exact meta-len is accepted: 200, both parts exact. -/
+example : routeData exCodec .stage false true ['2'] none 0 ⟨[0xAA, 0xBB, 11, 12, 13, 20, 21], false⟩ =
+    ⟨.ok200, some [exA, exB], [(exA, [11, 12, 13]), (exB, [20, 21])]⟩ := by decide
+
+/-- `refuse_malformed_wire` is not vacuous: the example payload with meta-len 3 (one too many)
+    and with the exact meta-len but the last byte missing. -/
+example : routeData exCodec .stage false true ['3'] none 0 ⟨[0xAA, 0xBB, 11, 12, 13, 20, 21], false⟩ =
+      ⟨.err500, none, []⟩ ∧
+    (routeData exCodec .stage false true ['2'] none 0 ⟨[0xAA, 0xBB, 11, 12, 13, 20], true⟩).status = .partial206 1 := by
+  have h1 := refuse_malformed_wire exCodec [exA, exB] exCodec_rt exCodec_pf exFiles none false ['3'] 3 7
+    (by decide) (by simp) exOk ⟨by decide, by decide⟩ exSafe (Or.inl (by decide))
+  exact ⟨h1.2.1 (Or.inl (by decide)), by decide⟩
+
+/-- `metalen_mismatch_refused` / `metalen_nonpositive_no_bytes`: meta-len 1 (too small) is
+    refused with 500; meta-len 0 and -7 hand no byte to any `Receive`. -/
+example (rest : List UInt8) :
+    routeData exCodec .stub false true ['1'] none 0 ⟨[0xAA, 0xBB] ++ rest, false⟩ = ⟨.err500, none, []⟩ :=
+  metalen_mismatch_refused exCodec [exA, exB] exCodec_rt exCodec_pf .stub none rest false ['1'] 1 0
+    (by decide) (by decide) (by decide)
+
+example (s : Stream) : ∀ p ∈ (routeData exCodec .stage false true ['-', '7'] none 0 s).received, p.2 = [] :=
+  metalen_nonpositive_no_bytes exCodec .stage none s ['-', '7'] (-7) 0 (by decide) (by decide)
+
 
 end Sts.Wire
